@@ -88,10 +88,7 @@ def run(chk, program, tier):
     from .. import rules_reasm as RR_
     chk.rule('RA-DONE', 'the reassembly record is removed on completion (C04)'); chk.rule('RA-RESET', 'a fresh sequence counter restarts the record completely (C04)')
     RR_.decide(chk, program, tier, ['RA-DONE', 'RA-RESET'])
-    try:
-        c05._run(_Sub0(chk, {'ID-PARSE', 'ID-BUILD'}), program, tier)
-    except (B.Top, B.NeedBranch, AnalysisError) as t:
-        chk.unknown('ID-PARSE', 'header functions', str(t), DEC, 0)
+    c05.header_roundtrip(_Sub0(chk, {'ID-PARSE', 'ID-BUILD'}), program, tier)
     feas = feasible_lengths(program)
     chk.unit('feasible_data_lengths', feas)
     bad13 = None
